@@ -9,7 +9,9 @@ ANALYSIS-ERROR -- normalisation never guesses):
                            ``for x in chain.from_iterable(E for v in IT)``  ->  ``for v' in IT: for x in E: body``
   D. ``unroll_tables``     ``any(f(a) for f in _TABLE)`` / ``all(..)`` / ``for f in _TABLE: body`` over a module-level,
                            never re-bound tuple of *functions* (or rows containing functions) -> the or / and chain /
-                           the unrolled statements (the private helpers named by the table are then inlined)
+                           the unrolled statements (the private helpers named by the table are then inlined);
+                           ``x = next((f for k, f in _TABLE if k == key), None)`` -> the if / elif chain over the rows
+  D'. ``devirtualize_calls``  ``h = _f`` / ``h = _g`` ... ``r = h(a)``  ->  ``if h is _f: r = _f(a)`` / ``else: r = _g(a)``
   E. ``project_namedtuples``  ``p = _P(e1, e2)`` .. ``p.a``     ->  ``p__a = e1; p__b = e2; p = _P(p__a, p__b)`` .. ``p__a``
   H. ``forward_single_cell``  ``box = []`` .. ``box.append(v)`` .. ``box[0]``  ->  .. ``v``  (a local one-element list that nothing else
                            can reach, one append site outside loops, the read later in the append's own block)
@@ -488,14 +490,162 @@ def unroll_tables(tree):
                 n[0] += 1
             return out
         _map_blocks(fn, fix)
+
+        def lookups(stmts):
+            # ``x = next((ELT for ROW in _TABLE if COND), <constant>)`` (also ``return next(..)``): the generator tests the rows in
+            # order and stops at the first hit, so this is  ``if COND[row0]: x = ELT[row0] / elif COND[row1]: .. / else: x = <constant>``
+            out = []
+            for s in stmts:
+                v = s.value if isinstance(s, (ast.Assign, ast.Return)) else None
+                if isinstance(s, ast.Assign) and not (len(s.targets) == 1 and isinstance(s.targets[0], ast.Name)):
+                    v = None
+                g = v.args[0] if isinstance(v, ast.Call) and isinstance(v.func, ast.Name) and v.func.id == 'next' and 'next' not in shadow and \
+                    len(v.args) == 2 and not v.keywords and isinstance(v.args[1], ast.Constant) and isinstance(v.args[0], ast.GeneratorExp) else None
+                gen = g.generators[0] if g is not None and len(g.generators) == 1 else None
+                if gen is None or gen.is_async or not isinstance(gen.iter, ast.Name) or gen.iter.id not in tables or gen.iter.id in shadow or \
+                        _contains([g.elt] + list(gen.ifs), (ast.NamedExpr, ast.Lambda, ast.ListComp, ast.SetComp, ast.DictComp, ast.GeneratorExp,
+                                                             ast.Await, ast.Yield, ast.YieldFrom), stop=()):
+                    out.append(s)
+                    continue
+                binds = [_bind_row(gen.target, r) for r in tables[gen.iter.id].elts]
+                if any(b is None for b in binds):
+                    out.append(s)
+                    continue
+
+                def put(e):
+                    if isinstance(s, ast.Return):
+                        return ast.copy_location(ast.Return(value=e), s)
+                    return ast.copy_location(ast.Assign(targets=[copy.deepcopy(s.targets[0])], value=e), s)
+                chain_ = [put(v.args[1])]
+                for b in reversed(binds):
+                    sub = _Subst(b, {})
+                    body = [put(_AttrGetterCall().visit(sub.visit(copy.deepcopy(g.elt))))]
+                    conds = [_AttrGetterCall().visit(sub.visit(copy.deepcopy(c))) for c in gen.ifs]
+                    if not conds:
+                        chain_ = body          # a row without a condition is always a hit
+                    else:
+                        test = conds[0] if len(conds) == 1 else ast.BoolOp(op=ast.And(), values=conds)
+                        chain_ = [ast.copy_location(ast.If(test=ast.copy_location(test, s), body=body, orelse=chain_), s)]
+                out.extend(chain_)
+                n[0] += 1
+            return out
+        _map_blocks(fn, lookups)
     for f in _functions(tree):
         fix_in(f)
     return n[0]
 
 
+def devirtualize_calls(tree):
+    """A local that only ever holds module-level functions (or None) and is called:
+
+        ``h = _f`` .. ``h = _g`` .. ``h = None``   ...   ``r = h(a)``
+        ->  ``if h is _f: r = _f(a)`` / ``elif h is _g: r = _g(a)`` / ``else: r = h(a)``
+
+    Every binding of ``h`` in the function is a plain ``h = <name>`` of a function defined once at module level (never
+    re-bound, not shadowed in the function) or ``h = None``; ``h`` is not a parameter, not global / nonlocal, not used in a
+    nested scope.  ``h is _f`` holds exactly when the last binding executed was ``h = _f``, so each arm runs the statement it
+    would have run.  The last arm is left open (``else: r = h(a)``) unless the statement sits in the body of ``if h is not
+    None:`` / ``if h:`` in which ``h`` is not re-bound -- there ``h`` is one of the functions, and the last of them needs no test.
+    Only statements whose value is the call itself are rewritten (``r = h(..)``, ``h(..)``, ``return h(..)``)."""
+    stores = _module_bindings(tree)
+    top_funcs = set(st.name for st in tree.body if isinstance(st, ast.FunctionDef) and stores.get(st.name) == 1)
+    total = [0]
+    for fn in _functions(tree):
+        params = set(a.arg for x in ast.walk(fn) if isinstance(x, ast.arguments)
+                     for a in x.posonlyargs + x.args + x.kwonlyargs + [y for y in (x.vararg, x.kwarg) if y])
+        frozen = set()
+        for x in ast.walk(fn):
+            if isinstance(x, (ast.Global, ast.Nonlocal)):
+                frozen |= set(x.names)
+        own = [x for s in fn.body for x in _walk_same_scope(s)]
+        own_ids = set(id(x) for x in own)
+        local_stores = _stored_names(fn.body)
+        binds = {}
+        for x in own:
+            if isinstance(x, ast.Assign) and len(x.targets) == 1 and isinstance(x.targets[0], ast.Name):
+                v = x.value
+                if (isinstance(v, ast.Name) and v.id in top_funcs and v.id not in local_stores and v.id not in params) or \
+                        (isinstance(v, ast.Constant) and v.value is None):
+                    binds.setdefault(x.targets[0].id, []).append(x)
+        for h, assigns in sorted(binds.items()):
+            if h in params or h in frozen:
+                continue
+            targets = set(id(a.targets[0]) for a in assigns)
+            funcs = []
+            for a in assigns:
+                if isinstance(a.value, ast.Name) and a.value.id not in funcs:
+                    funcs.append(a.value.id)
+            if not funcs or len(funcs) > 4:
+                continue
+            ok = True
+            for x in ast.walk(fn):
+                if isinstance(x, ast.Name) and x.id == h:
+                    if isinstance(x.ctx, (ast.Store, ast.Del)) and id(x) not in targets:
+                        ok = False
+                    if id(x) not in own_ids:
+                        ok = False          # read in a nested scope
+                elif isinstance(x, ast.ExceptHandler) and x.name == h:
+                    ok = False
+                elif isinstance(x, (ast.Import, ast.ImportFrom)) and any((a.asname or a.name).split('.')[0] == h for a in x.names):
+                    ok = False
+            if not ok:
+                continue
+
+            def is_call_stmt(s):
+                v = s.value if isinstance(s, (ast.Assign, ast.Expr, ast.Return)) else None
+                return isinstance(v, ast.Call) and isinstance(v.func, ast.Name) and v.func.id == h and \
+                    not any(isinstance(z, ast.Name) and z.id == h for a_ in list(v.args) + [k.value for k in v.keywords] for z in ast.walk(a_)) and \
+                    not (isinstance(s, ast.Assign) and any(isinstance(z, ast.Name) and z.id == h for t in s.targets for z in ast.walk(t)))
+
+            def rewrite(stmts, non_none):
+                out = []
+                for s in stmts:
+                    if is_call_stmt(s):
+                        arms = []
+                        for f_ in funcs:
+                            s2 = copy.deepcopy(s)
+                            s2.value.func = ast.copy_location(ast.Name(id=f_, ctx=ast.Load()), s.value.func)
+                            arms.append((f_, s2))
+                        tail = [s]
+                        if non_none:
+                            tail = [arms[-1][1]]
+                            arms = arms[:-1]
+                        for f_, s2 in reversed(arms):
+                            test = ast.Compare(left=ast.Name(id=h, ctx=ast.Load()), ops=[ast.Is()], comparators=[ast.Name(id=f_, ctx=ast.Load())])
+                            tail = [ast.copy_location(ast.If(test=ast.copy_location(test, s), body=[s2], orelse=tail), s)]
+                        out.extend(tail)
+                        total[0] += 1
+                        continue
+                    if isinstance(s, _SCOPES):
+                        out.append(s)
+                        continue
+                    if isinstance(s, ast.If):
+                        t = s.test
+                        guard = (isinstance(t, ast.Name) and t.id == h) or \
+                            (isinstance(t, ast.Compare) and len(t.ops) == 1 and isinstance(t.ops[0], ast.IsNot) and isinstance(t.left, ast.Name) and
+                             t.left.id == h and isinstance(t.comparators[0], ast.Constant) and t.comparators[0].value is None)
+                        s.body = rewrite(s.body, (non_none or guard) and h not in _stored_names(s.body))
+                        s.orelse = rewrite(s.orelse, non_none and h not in _stored_names(s.orelse))
+                        out.append(s)
+                        continue
+                    keep = non_none and h not in _stored_names([s])
+                    for field in ('body', 'orelse', 'finalbody'):
+                        sub = getattr(s, field, None)
+                        if isinstance(sub, list) and sub and isinstance(sub[0], ast.stmt):
+                            setattr(s, field, rewrite(sub, keep))
+                    if isinstance(s, ast.Try):
+                        for hd in s.handlers:
+                            hd.body = rewrite(hd.body, keep)
+                    out.append(s)
+                return out
+            fn.body = rewrite(fn.body, False)
+    return total[0]
+
+
 # ------------------------------------------------------------------------------------------------ E. named tuples
 def namedtuple_types(tree):
-    """Module-level ``_P = namedtuple('_P', 'a b')`` / ``namedtuple('_P', ['a', 'b'])`` bound once: name -> field list."""
+    """Module-level ``_P = namedtuple('_P', 'a b')`` / ``namedtuple('_P', ['a', 'b'])`` bound once -- or a class deriving
+    from just such a call that only adds plain methods: name -> field list."""
     stores = _module_bindings(tree)
     out = {}
     for st in tree.body:
